@@ -598,12 +598,36 @@ fn check_resolve_err(op: &str, e: &resolve::Error, want: &(usize, RefErr), ptr: 
             (RefErr::NotFound, resolve::Error::NotFound { .. }) => true,
             (RefErr::BadIndex, resolve::Error::FailedToParseIndex { source, .. }) => {
                 // the reason is the one for the token's own text
-                toks[want.0].parse::<jsonptr::index::Index>().as_ref().err() == Some(source)
+                toks[want.0].parse::<jsonptr::index::Index>().as_ref().err() == Some(source) && index_reason_ok(&toks[want.0], source)
             }
             (RefErr::OutOfBounds { len, idx }, resolve::Error::OutOfBounds { source, .. }) => source.length == *len && source.index == *idx,
             _ => false,
         };
     out.check(ok, "C05,C15,C10", || format!("{op}({ptr:?}) on {} fails with {e:?}, the reference walk says {want:?}", doc_str(doc)));
+}
+
+
+/// the reason an index-parse error must carry for a token's own text, decided without the crate's parser
+/// (RFC 6901 array index grammar; the crate checks the leading zero before it looks for a non-digit)
+fn index_reason_ok(tok: &str, source: &jsonptr::index::ParseIndexError) -> bool {
+    use jsonptr::index::ParseIndexError as E;
+    let b = tok.as_bytes();
+    if b.len() > 1 && b[0] == b'0' {
+        return matches!(source, E::LeadingZeros);
+    }
+    if let Some(k) = tok.chars().position(|c| !c.is_ascii_digit()) {
+        return match source {
+            E::InvalidCharacter(e) => e.offset() == k && e.source() == tok && tok.chars().nth(k) == Some(e.char()),
+            _ => false,
+        };
+    }
+    match source {
+        E::InvalidInteger(e) => {
+            let fits = !b.is_empty() && b.len() <= 20 && tok.parse::<u128>().map(|v| v <= usize::MAX as u128).unwrap_or(false);
+            !fits && (b.is_empty() == matches!(e.kind(), std::num::IntErrorKind::Empty)) && (b.is_empty() || matches!(e.kind(), std::num::IntErrorKind::PosOverflow))
+        }
+        _ => false,
+    }
 }
 
 // ------------------------------------------------------------------ operations
@@ -768,7 +792,7 @@ fn do_assign<B: Backend>(st: &mut State<B>, ptr: &str, src: &Doc, out: &mut Out)
                 Err(w) => {
                     let ok = e.position() == w.0
                         && match (&w.1, &e) {
-                            (RefErr::BadIndex, assign::Error::FailedToParseIndex { source, .. }) => toks[w.0].parse::<jsonptr::index::Index>().as_ref().err() == Some(source),
+                            (RefErr::BadIndex, assign::Error::FailedToParseIndex { source, .. }) => toks[w.0].parse::<jsonptr::index::Index>().as_ref().err() == Some(source) && index_reason_ok(&toks[w.0], source),
                             (RefErr::OutOfBounds { len, idx }, assign::Error::OutOfBounds { source, .. }) => source.length == *len && source.index == *idx,
                             _ => false,
                         };
@@ -1061,7 +1085,82 @@ fn key_choices<'a>(keys: &[&'a str], k: usize) -> Vec<Vec<&'a str>> {
 
 /// pointers worth trying on a document: every node path plus single-token perturbations
 fn pointers_for(d: &Doc) -> Vec<String> {
-    pointers_for_depth(d, true)
+    let mut v = pointers_for_depth(d, true);
+    // the fixed medium documents also get digit-led junk, Unicode numerics, and numeric tokens below an append position
+    let mut set: std::collections::BTreeSet<String> = v.iter().cloned().collect();
+    for path in all_paths(d) {
+        let p = ptr_of_path(&path);
+        if let Some(Doc::Arr(a)) = get_path(d, &path) {
+            for t in ["1a", "1A", "1:", "3x", "2 ", "1e1", "\u{661}", "1\u{b2}", "07", "1_0", "0x1"] {
+                set.insert(format!("{p}/{t}"));
+            }
+            let len = a.len();
+            for app in ["-".to_string(), len.to_string()] {
+                for below in ["1".to_string(), "2".to_string(), len.to_string(), (len + 1).to_string()] {
+                    set.insert(format!("{p}/{app}/{below}"));
+                    set.insert(format!("{p}/{app}/{below}/k"));
+                }
+            }
+        }
+    }
+    // tokens that decode to a proper prefix / an extension of an existing member name
+    for path in all_paths(d) {
+        let p = ptr_of_path(&path);
+        if let Some(Doc::Obj(m)) = get_path(d, &path) {
+            for k in m.keys() {
+                let mut cut = k.clone();
+                if cut.pop().is_some() && !cut.is_empty() {
+                    set.insert(format!("{p}/{}", rfc_escape(&cut)));
+                    set.insert(format!("{p}/{}/x", rfc_escape(&cut)));
+                }
+                set.insert(format!("{p}/{}", rfc_escape(&format!("{k}c"))));
+            }
+        }
+    }
+    v = set.into_iter().collect();
+    v
+}
+
+/// documents beyond the small scope with a handful of explicit pointers each (every operation, both backends)
+fn huge_cases() -> Vec<(Doc, Vec<String>)> {
+    let arr = |v: Vec<i64>| Doc::Arr(v.into_iter().map(Doc::Int).collect());
+    let obj = |kv: Vec<(String, Doc)>| Doc::Obj(kv.into_iter().collect());
+    let big_key = format!("{}x~1y", "k".repeat(70_001));
+    let bk = rfc_escape(&big_key);
+    let mut v = vec![];
+    // a member name longer than u16::MAX bytes containing "~1" literally
+    v.push((
+        obj(vec![(big_key.clone(), arr(vec![1, 2])), ("k".to_string(), Doc::Int(1))]),
+        vec![format!("/{bk}"), format!("/{bk}/1"), format!("/{bk}/2"), format!("/{}", &bk[..bk.len() - 1]), format!("/{bk}z")],
+    ));
+    // a long array: digit-led junk whose "value" would be in range, indices around the length
+    v.push((
+        obj(vec![("xs".to_string(), arr((0..700).collect()))]),
+        ["1a", "1A", "1:", "3x", "2 ", "1e1", "\u{661}", "1\u{b2}", "699", "700", "701", "-", "0700", "07", "6 99", "77777777777777777777x", "18446744073709551616x", "99999999999999999999"].iter().map(|t| format!("/xs/{t}")).collect(),
+    ));
+    // nesting 70 deep
+    let deep = (0..70).fold(Doc::Int(7), |d, k| if k % 2 == 0 { Doc::Obj([("n".to_string(), d)].into_iter().collect()) } else { Doc::Arr(vec![d]) });
+    let mut dp = String::new();
+    let mut ptrs = vec![];
+    for k in (0..70).rev() {
+        dp.push_str(if k % 2 == 1 { "/0" } else { "/n" });
+        if k % 9 == 0 {
+            ptrs.push(dp.clone());
+            ptrs.push(format!("{dp}/q"));
+        }
+    }
+    ptrs.push(dp.clone());
+    v.push((deep, ptrs));
+    // an array of 65 536 elements (a Vec collected from an exact-size iterator: no spare capacity) and appends below it
+    v.push((
+        obj(vec![("items".to_string(), arr((0..65_536).collect()))]),
+        vec!["/items/-/id".to_string(), "/items/65536/id".to_string(), "/items/-".to_string(), "/items/65535".to_string(), "/items/65536".to_string(), "/items/65537/x".to_string()],
+    ));
+    // a failing token longer than u16::MAX bytes (label spans)
+    let long_tok = "k".repeat(70_000);
+    v.push((obj(vec![("k".to_string(), Doc::Int(1))]), vec![format!("/{long_tok}"), format!("/k/{long_tok}"), format!("/{long_tok}/x")]));
+    v.push((arr(vec![1, 2]), vec![format!("/{long_tok}"), format!("/0/{long_tok}")]));
+    v
 }
 
 /// `rich = false`: a leaner perturbation set for the largest document size of the thorough tier
@@ -1086,7 +1185,7 @@ fn pointers_for_depth(d: &Doc, rich: bool) -> Vec<String> {
         for t in appended {
             set.insert(format!("{p}/{t}"));
             // and one more below it (expansion paths, errors below a failure)
-            let below: &[&str] = if rich { &["0", "-", "b", ""] } else { &["-"] };
+            let below: &[&str] = if rich { &["0", "-", "b", "", "1"] } else { &["-"] };
             for u in below {
                 set.insert(format!("{p}/{t}/{u}"));
             }
@@ -1168,6 +1267,8 @@ pub fn gen(tier: &str, rng: &mut Rng, emit: &mut dyn FnMut(String)) {
             obj(vec![(".", Doc::Int(1)), ("..", Doc::Int(2)), (" ", Doc::Int(3)), ("\u{0}", Doc::Int(4)), ("\"", Doc::Int(5)), ("\\", Doc::Int(6)), ("\u{7f}", Doc::Int(7)),
                      ("€", Doc::Int(8)), ("𝄞", arr(vec![1, 2])), ("%7E", Doc::Int(9)), ("#", Doc::Int(10))]),
             obj(vec![(&"k".repeat(300), arr(vec![1, 2])), (&"k".repeat(299), Doc::Int(1))]),
+            // a key that extends another key's decoded token (prefix relations after decoding)
+            obj(vec![("a/bc", obj(vec![("x", Doc::Int(1))])), ("a~bc", obj(vec![("x", Doc::Int(2))])), ("a", Doc::Int(3))]),
         ];
         for d in docs {
             let ds = doc_str(&d);
@@ -1180,6 +1281,20 @@ pub fn gen(tier: &str, rng: &mut Rng, emit: &mut dyn FnMut(String)) {
                 emit(format!("tree {be} {ds} A {x} {}", doc_str(&values(common)[0])));
                 emit(format!("tree {be} {ds} A {x} {}", doc_str(&values(common)[2])));
                 emit(format!("tree {be} {ds} W {x} {}", doc_str(&values(common)[1])));
+            }
+        }
+    }
+    for be in ["json", "toml"] {
+        let common = be == "toml";
+        for (d, ptrs) in huge_cases() {
+            let ds = doc_str(&d);
+            for p in ptrs {
+                let x = hex(p.as_bytes());
+                for o in ["R", "M", "D"] {
+                    emit(format!("tree {be} {ds} {o} {x}"));
+                }
+                emit(format!("tree {be} {ds} A {x} {}", doc_str(&values(common)[0])));
+                emit(format!("tree {be} {ds} W {x} {}", doc_str(&values(common)[0])));
             }
         }
     }
@@ -1267,7 +1382,8 @@ pub fn random_pointer(rng: &mut Rng, d: &Doc) -> String {
         match cur {
             Doc::Arr(a) => {
                 if a.is_empty() || rng.chance(1, 5) {
-                    toks.push(rng.pick(&["-", "0", "00", "+1", "a", "", &a.len().to_string(), &(a.len() + 1).to_string()][..]).to_string());
+                    toks.push(rng.pick(&["-", "0", "00", "+1", "a", "", &a.len().to_string(), &(a.len() + 1).to_string(),
+                        "\u{661}", "1\u{b2}", "1a", "1:", "07", "1e1", "77777777777777777777x", "18446744073709551616"][..]).to_string());
                     break;
                 }
                 let i = rng.below(a.len());
@@ -1312,6 +1428,12 @@ fn hist_alphabet(common: bool) -> Vec<String> {
     }
     for p in ["/a", "/a/0", "/0"] {
         ops.push(format!("W {} {}", hex(p.as_bytes()), doc_str(&Doc::Str("w".into()))));
+    }
+    // index-shaped junk on an array member: Unicode numerics, digit-led junk, a leading zero
+    for p in ["/a/\u{661}", "/a/1\u{b2}", "/a/1a", "/a/01"] {
+        let x = hex(p.as_bytes());
+        ops.push(format!("R {x}"));
+        ops.push(format!("A {x} {}", doc_str(&Doc::Int(1))));
     }
     if !common {
         ops.push(format!("A {} n", hex(b"/a")));
